@@ -384,9 +384,11 @@ pub struct Sel {
     pub targets: usize,
     pub threads: usize,
     pub calls: usize,
+    /// target 0 accepts, reads the request and never answers
+    pub silent_first: bool,
 }
 
-type SelObs = (Vec<(usize, Vec<u8>)>, Vec<(usize, u16, Vec<u8>)>);
+type SelObs = (Vec<(usize, Vec<u8>)>, Vec<(usize, u16, Vec<u8>, u64)>);
 
 fn selection_body(sel: &Sel, obs: &Arc<Mutex<SelObs>>) {
     let ports: Vec<u16> = (0..sel.targets).map(|i| 9100 + i as u16).collect();
@@ -399,7 +401,24 @@ fn selection_body(sel: &Sel, obs: &Arc<Mutex<SelObs>>) {
     let total = sel.threads * sel.calls;
     for (i, p) in ports.iter().enumerate() {
         let l = TcpListener::bind(format!("127.0.0.1:{}", p)).unwrap();
-        id_server(l, i, hits.clone(), total);
+        if i == 0 && sel.silent_first {
+            let h2 = hits.clone();
+            thread::Builder::new()
+                .name("silent-target".into())
+                .spawn(move || {
+                    let mut held = vec![];
+                    for _ in 0..total {
+                        let Ok((mut s, _)) = l.accept() else { return };
+                        let got = read_request(&mut s);
+                        h2.lock().unwrap().push((0usize, got));
+                        held.push(s);
+                    }
+                    thread::sleep(Duration::from_secs(3600));
+                })
+                .unwrap();
+        } else {
+            id_server(l, i, hits.clone(), total);
+        }
     }
     let results = Arc::new(Mutex::new(vec![]));
     let mut hs = vec![];
@@ -414,8 +433,10 @@ fn selection_body(sel: &Sel, obs: &Arc<Mutex<SelObs>>) {
                         r.headers = vec![("Host".into(), " ".into(), "x".into())];
                         let req = request_of(&r, "198.51.100.9:777");
                         let route = state.config.get_route(0, 0);
+                        let t0 = cur().map(|(rt, _)| rt.now()).unwrap_or(0);
                         let resp = proxy_handler(req, state.clone(), route.load_balancer.as_ref().unwrap(), &route.matches);
-                        results.lock().unwrap().push((t, u16::from(resp.status_code), resp.body.clone()));
+                        let t1 = cur().map(|(rt, _)| rt.now()).unwrap_or(0);
+                        results.lock().unwrap().push((t, u16::from(resp.status_code), resp.body.clone(), t1 - t0));
                     }
                 })
                 .unwrap(),
@@ -437,8 +458,14 @@ fn selection_family(cx: &mut Ctx) {
             if quick && threads == 3 && targets != 2 {
                 continue;
             }
-            scns.push(Sel { targets, threads, calls: 2 });
+            scns.push(Sel { targets, threads, calls: 2, silent_first: false });
         }
+    }
+    // one target accepts and never answers: requests routed to the healthy target must not wait for it
+    scns.push(Sel { targets: 2, threads: 2, calls: 1, silent_first: true });
+    scns.push(Sel { targets: 2, threads: 3, calls: 1, silent_first: true });
+    if !quick {
+        scns.push(Sel { targets: 3, threads: 3, calls: 2, silent_first: true });
     }
     let results: Vec<(Stats, sched::Out, String)> = scns
         .par_iter()
@@ -467,6 +494,32 @@ fn selection_family(cx: &mut Ctx) {
                     return;
                 }
                 let total = sel.threads * sel.calls;
+                if sel.silent_first {
+                    // the healthy targets answer at once on the virtual clock; only calls routed to the silent
+                    // target may take the timeout, and they end in 502
+                    if o.1.len() != total {
+                        s.violation("selection: a proxied request never returned", || ctx(format!("{} of {} calls returned", o.1.len(), total)));
+                        return;
+                    }
+                    for (t, status, body, elapsed) in &o.1 {
+                        if *status == 200 && *elapsed > SLACK_NS {
+                            s.violation("selection: a request to a healthy target waited for another request's stalled target", || ctx(format!("caller {} got {:?} after {} virtual ms", t, show(body), elapsed / 1_000_000)));
+                            return;
+                        }
+                        if *status != 200 && (*status != 502 || *elapsed > TIMEOUT.as_nanos() as u64 + SLACK_NS) {
+                            s.violation("selection: a request to the stalled target was not answered 502 within the timeout", || ctx(format!("caller {} status {} after {} virtual ms", t, status, elapsed / 1_000_000)));
+                            return;
+                        }
+                    }
+                    let stalled = o.1.iter().filter(|x| x.1 == 502).count();
+                    let want_stalled = (0..total).filter(|j| j % sel.targets == 0).count();
+                    if stalled != want_stalled {
+                        s.violation("selection: round-robin targets are not handed out in strict rotation", || ctx(format!("{} calls hit the stalled target, rotation gives {}", stalled, want_stalled)));
+                        return;
+                    }
+                    s.outcome("stalled-target-isolated");
+                    return;
+                }
                 if o.1.len() != total || o.1.iter().any(|x| x.1 != 200) {
                     s.violation("selection: a proxied request was not answered with the upstream's response", || ctx(format!("{:?}", o.1.iter().map(|x| x.1).collect::<Vec<_>>())));
                     return;
